@@ -45,6 +45,12 @@ def make_db(state):
         db.execute(f'create table {home}.{t} (' + ', '.join(f'{c} {ty}' for c, ty in cols) + ')')
         if state.get(t):
             db.executemany(f'insert into {home}.{t} values (' + ','.join('?' * len(cols)) + ')', state[t])
+    # an integration of the API kind (declared by catalog form 2): it holds a copy of t1
+    db.execute("attach ':memory:' as api1")
+    cols = selgen.SCHEMA['t1']
+    db.execute('create table api1.t1 (' + ', '.join(f'{c} {ty}' for c, ty in cols) + ')')
+    if state.get('t1'):
+        db.executemany('insert into api1.t1 values (' + ','.join('?' * len(cols)) + ')', state['t1'])
     return db
 
 
@@ -301,6 +307,14 @@ def run_shard(ctx):
         elif i % 10 == 7:
             text, ordered, feats = fedgen.star_query(r), False, {'star-over-nested'}
             acc.count('star_shapes')
+        elif i % 40 == 20:
+            text, ordered, feats = fedgen.sibling_ctes(r), False, {'sibling-ctes-of-one-name'}
+            acc.count('sibling_cte_shapes')
+        elif i % 20 == 10:
+            # (i % 4 == 2: the catalog form that declares the API integration) what such an integration cannot do itself is done on top
+            text = fedgen.api_select(r)
+            ordered, feats = ' ORDER BY ' in text and 'p.id' in text.split(' ORDER BY ')[1], {'api-integration'}
+            acc.count('api_select_shapes')
         elif i % 20 == 15:
             text, ordered, feats = fedgen.derived_join(r), False, {'nested-select-joined-across-integrations'}
             acc.count('derived_join_shapes')
